@@ -1,143 +1,152 @@
-(* Proofs/SerdeWitnesses.v -- each known class of C17 / C18 contains an input on which the
-   faithful model contradicts the specification.  Where the deviation sits in a dependency
-   (lexical's lossy parser, serde_json's float parser) the dependency's recorded answer on
-   the witness is a hypothesis of the statement; the correspondence run re-observes it. *)
+(* Proofs/SerdeWitnesses.v -- concrete instances for C17 / C18.
+   1. Each remaining known class contains an input on which the faithful model contradicts
+      the specification (K3: a magnitude beyond the doubles deserialises to null; K4: an
+      object whose first key is the private number token is taken for a number).
+   2. Non-vacuity: concrete non-trivial values satisfying every value-level premise of the
+      theorems, with the evaluated results for executable instances of the two printing
+      dependencies (built on the ECMAScript reference printer of Spec/EcmaNumber.v). *)
 From Coq Require Import SpecFloat.
 From JsonSyntax Require Import Base.Prelude Base.Value Base.Float64 Spec.Multimap
   Spec.EcmaNumber Spec.NumSpelling Spec.SerdeData Spec.SerdeJsonValue Spec.SerdeRoundTrip
   Model.SerdeValue.
 
-Definition w_exp := VNum (s2l "1e5").
-Definition w_big := VNum (s2l "18446744073709551616").
-
-(* K1: integer syntax that is not a 64-bit integer is refused by the serializer *)
-Lemma K1_refuted fmt_lex :
-  (wf_nums w_exp = true /\ K1 w_exp = true /\ K4 w_exp = false /\ nodup_keysb w_exp = true /\
-   to_value fmt_lex w_exp = Err ECustom) /\
-  (wf_nums w_big = true /\ K1 w_big = true /\ K4 w_big = false /\ nodup_keysb w_big = true /\
-   to_value fmt_lex w_big = Err ECustom).
-Proof. vm_compute. repeat split. Qed.
-
-(* K2: a 27-digit decimal comes back one unit in the last place low *)
-Definition w_long_s := s2l "4.14673952822385274921803532e91".
-Definition w_long := VNum w_long_s.
-Definition w_long_lossy_bits : Z := 5977503016536447937.
-Definition w_long_printed := s2l "4.1467395282238524e91".
-
-Lemma K2_refuted lossy fmt_lex :
-  lossy w_long_s = sf_of_bits w_long_lossy_bits ->
-  fmt_lex (sf_of_bits w_long_lossy_bits) = w_long_printed ->
-  wf_nums w_long = true /\ K2 w_long = true /\ K3 w_long = false /\ K4 w_long = false /\
-  from_value lossy fmt_lex w_long = Ok (VNum w_long_printed) /\
-  de_ok w_long (VNum w_long_printed) = false /\
-  sf_bits (dbl w_long_s) = (w_long_lossy_bits + 1)%Z.
-Proof.
-  intros H1 H2.
-  assert (E : from_value lossy fmt_lex w_long = Ok (VNum w_long_printed)).
-  { unfold from_value, w_long. cbn [events]. unfold number_events.
-    replace (parse_u64 w_long_s) with (@None Z) by (vm_compute; reflexivity).
-    replace (parse_i64 w_long_s) with (@None Z) by (vm_compute; reflexivity).
-    cbn [de_value]. unfold f64_value. rewrite H1.
-    replace (sf_is_finite (sf_of_bits w_long_lossy_bits)) with true by (vm_compute; reflexivity).
-    rewrite H2. reflexivity. }
-  repeat split; try exact E; vm_compute; reflexivity.
-Qed.
-
-(* K3: a magnitude beyond the doubles becomes null *)
+(* ---------------------------------------------------------------- known classes *)
 Definition w_huge_s := s2l "1e400".
 Definition w_huge := VNum w_huge_s.
 
-Lemma K3_refuted lossy fmt_lex :
-  lossy w_huge_s = S754_infinity false ->
-  wf_nums w_huge = true /\ K3 w_huge = true /\ K2 w_huge = false /\ K4 w_huge = false /\
-  from_value lossy fmt_lex w_huge = Ok VNull /\ de_ok w_huge VNull = false.
-Proof.
-  intros H.
-  assert (E : from_value lossy fmt_lex w_huge = Ok VNull).
-  { unfold from_value, w_huge. cbn [events]. unfold number_events.
-    replace (parse_u64 w_huge_s) with (@None Z) by (vm_compute; reflexivity).
-    replace (parse_i64 w_huge_s) with (@None Z) by (vm_compute; reflexivity).
-    cbn [de_value]. unfold f64_value. rewrite H. reflexivity. }
-  repeat split; try exact E; vm_compute; reflexivity.
-Qed.
+(* K3: visit_f64(inf) becomes Value::Null: the structure changes *)
+Lemma K3_refuted fmt_lex :
+  K3 w_huge = true /\ K4 w_huge = false /\
+  from_value fmt_lex w_huge = Ok VNull /\ de_ok w_huge VNull = false.
+Proof. vm_compute. repeat split. Qed.
 
 (* K4: an object whose first key is the private token is taken for a number, both ways *)
 Definition w_token := VObj [(number_token, VStr (s2l "12"))].
 
-Lemma K4_refuted lossy fmt_lex sj_parse :
-  wf_nums w_token = true /\ K4 w_token = true /\ K1 w_token = false /\ nodup_keysb w_token = true /\
+Lemma K4_refuted fmt_lex :
+  wf_nums w_token = true /\ K4 w_token = true /\ K3 w_token = false /\ nodup_keysb w_token = true /\
   to_value fmt_lex w_token = Ok (VNum (s2l "12")) /\
-  from_value lossy fmt_lex w_token = Ok (VNum (s2l "12")) /\
-  from_text fmt_lex sj_parse w_token = Ok (VNum (s2l "12")) /\
+  from_value fmt_lex w_token = Ok (VNum (s2l "12")) /\
+  from_text fmt_lex w_token = Ok (VNum (s2l "12")) /\
   de_ok w_token (VNum (s2l "12")) = false.
 Proof. vm_compute. repeat split. Qed.
 
-(* K5: serde_json's default float parser reads a spelling just above half the least
-   subnormal as zero *)
-Definition w_tiny_s := s2l "2.4703282292062328e-324".
-Definition w_tiny := VNum w_tiny_s.
+(* ---------------------------------------------------------------- executable printers *)
+(* shortest round-trip digits (ECMAScript Number::toString), adjusted to what the two real
+   printers do at the edges: lexical prints -0.0 as "-0"; ryu always shows a '.' or an
+   exponent ("-0.0", "100000.0") *)
+Definition fmt_ref (x : spec_float) : list N :=
+  match ecma_to_string x with Some s => s | None => [] end.
+Definition fmt_lex_ref (x : spec_float) : list N :=
+  match x with S754_zero true => [0x2D; 0x30] | _ => fmt_ref x end.
+Definition fmt_ryu_ref (x : spec_float) : list N :=
+  match x with
+  | S754_zero true => s2l "-0.0"
+  | _ => let s := fmt_ref x in if is_int64 s then s ++ s2l ".0" else s
+  end.
 
-Lemma K5_refuted fmt_lex sj_parse :
-  sj_parse w_tiny_s = Some (S754_zero false) ->
-  fmt_lex (S754_zero false) = s2l "0" ->
-  wf_nums w_tiny = true /\ K5 w_tiny = true /\ K3 w_tiny = false /\ K4 w_tiny = false /\
-  from_text fmt_lex sj_parse w_tiny = Ok (VNum (s2l "0")) /\
-  de_ok w_tiny (VNum (s2l "0")) = false /\ sf_bits (dbl w_tiny_s) = 1%Z.
-Proof.
-  intros H1 H2.
-  assert (E : from_text fmt_lex sj_parse w_tiny = Ok (VNum (s2l "0"))).
-  { unfold from_text, w_tiny. cbn [events_sj]. unfold sj_number_events.
-    replace (parse_u64 w_tiny_s) with (@None Z) by (vm_compute; reflexivity).
-    replace (parse_i64 w_tiny_s) with (@None Z) by (vm_compute; reflexivity).
-    rewrite H1. cbn [de_value]. unfold f64_value. cbn [sf_is_finite]. rewrite H2. reflexivity. }
-  repeat split; try exact E; vm_compute; reflexivity.
-Qed.
+(* ---------------------------------------------------------------- example values *)
+(* three distinct keys (ASCII, U+00E9, U+10000), an array, a nested object; numbers: negative
+   integer, u64::MAX, fraction, exponent without fraction, -0, fraction with exponent *)
+Definition ex_inner : list (list N * value) :=
+  [(s2l "k", VStr (s2l "x")); (s2l "z", VNum (s2l "2.5e-3"))].
+Definition ex_arr : value :=
+  VArr [VNum (s2l "18446744073709551615"); VNum (s2l "1.5"); VNum (s2l "1e5"); VNum (s2l "-0");
+        VNull; VBool true].
+Definition ex_v : value :=
+  VObj [([0x10000], VObj ex_inner); (s2l "a", VNum (s2l "-12")); ([0xE9], ex_arr)].
+(* the same with the keys "a" and U+00E9 repeated *)
+Definition ex_vd : value :=
+  VObj [(s2l "a", VNum (s2l "-12")); ([0xE9], ex_arr); (s2l "a", VObj ex_inner);
+        ([0xE9], VNum (s2l "-0"))].
 
-(* ---------------------------------------------------------------- C18 *)
-(* K3: into_serde_json panics on a magnitude beyond the doubles *)
-Lemma K3_panics lossy sj_parse :
-  sj_parse w_huge_s = None -> lossy w_huge_s = S754_infinity false ->
-  nodup_keysb w_huge = true /\ nums64 w_huge = false /\ into_sj lossy sj_parse w_huge = Panic 2.
-Proof.
-  intros H1 H2. split; [reflexivity|]. split; [vm_compute; reflexivity|].
-  unfold w_huge. cbn [into_sj]. unfold number_into_sj.
-  replace (parse_u64 w_huge_s) with (@None Z) by (vm_compute; reflexivity).
-  replace (parse_i64 w_huge_s) with (@None Z) by (vm_compute; reflexivity).
-  rewrite H1, H2. reflexivity.
-Qed.
+Definition ex_arr_ser : value :=
+  VArr [VNum (s2l "18446744073709551615"); VNum (s2l "1.5"); VNum (s2l "1e5"); VNum (s2l "0");
+        VNull; VBool true].
+Definition ex_v_ser : value :=
+  VObj [([0x10000], VObj ex_inner); (s2l "a", VNum (s2l "-12")); ([0xE9], ex_arr_ser)].
 
-(* K6: a double whose shortest spelling has 16 digits and exponent -172 comes back one unit
-   in the last place high from serde_json's own parser *)
-Definition w_float_bits : Z := 0x1c5f367fcf16b755.
-Definition w_float := JNum (SFloat (sf_of_bits w_float_bits)).
-Definition w_float_printed := s2l "5.04796620613671e-172".
+Example ex_ser :
+  wf_nums ex_v = true /\ K4 ex_v = false /\ nodup_keysb ex_v = true /\
+  neg_zero_norm ex_v = ex_v_ser /\ to_value fmt_lex_ref ex_v = Ok ex_v_ser.
+Proof. vm_compute. repeat split. Qed.
 
-Lemma K6_refuted lossy sj_parse fmt_ryu :
-  fmt_ryu (sf_of_bits w_float_bits) = w_float_printed ->
-  sj_parse w_float_printed = Some (sf_of_bits (w_float_bits + 1)) ->
-  wf_sj w_float = true /\ K6 fmt_ryu w_float = true /\
-  there_and_back lossy sj_parse fmt_ryu w_float = Ok (JNum (SFloat (sf_of_bits (w_float_bits + 1)))) /\
-  sj_eqb (JNum (SFloat (sf_of_bits (w_float_bits + 1)))) w_float = false /\
-  dbl w_float_printed = sf_of_bits w_float_bits.
-Proof.
-  intros H1 H2.
-  assert (E : there_and_back lossy sj_parse fmt_ryu w_float
-              = Ok (JNum (SFloat (sf_of_bits (w_float_bits + 1))))).
-  { unfold there_and_back, w_float. cbn [from_sj]. unfold number_from_sj. cbn [sjnum_to_string].
-    rewrite H1.
-    replace (valid_number w_float_printed) with true by (vm_compute; reflexivity).
-    cbn [obind into_sj]. unfold number_into_sj.
-    replace (parse_u64 w_float_printed) with (@None Z) by (vm_compute; reflexivity).
-    replace (parse_i64 w_float_printed) with (@None Z) by (vm_compute; reflexivity).
-    rewrite H2. reflexivity. }
-  split; [vm_compute; reflexivity|]. split; [cbn [K6 w_float]; rewrite H1; vm_compute; reflexivity|].
-  split; [exact E|]. split; vm_compute; reflexivity.
-Qed.
+Example ex_dups :
+  wf_nums ex_vd = true /\ K4 ex_vd = false /\ nodup_keysb ex_vd = false /\
+  ser_spec ex_vd = VObj [(s2l "a", VObj ex_inner); ([0xE9], VNum (s2l "0"))] /\
+  to_value fmt_lex_ref ex_vd = Ok (ser_spec ex_vd).
+Proof. vm_compute. repeat split. Qed.
 
-Print Assumptions K1_refuted.
-Print Assumptions K2_refuted.
+(* deserialised: 1e5 respelt 100000, -0 read as the integer 0, 2.5e-3 respelt 0.0025 *)
+Definition ex_v_de (neg_zero : list N) : value :=
+  VObj [([0x10000], VObj [(s2l "k", VStr (s2l "x")); (s2l "z", VNum (s2l "0.0025"))]);
+        (s2l "a", VNum (s2l "-12"));
+        ([0xE9], VArr [VNum (s2l "18446744073709551615"); VNum (s2l "1.5"); VNum (s2l "100000");
+                       VNum neg_zero; VNull; VBool true])].
+
+Example ex_de :
+  K3 ex_v = false /\ K4 ex_v = false /\
+  from_value fmt_lex_ref ex_v = Ok (ex_v_de (s2l "0")) /\ de_ok ex_v (ex_v_de (s2l "0")) = true.
+Proof. vm_compute. repeat split. Qed.
+
+Example ex_de_text :
+  K3 ex_v = false /\ K4 ex_v = false /\
+  from_text fmt_lex_ref ex_v = Ok (ex_v_de (s2l "-0")) /\ de_ok ex_v (ex_v_de (s2l "-0")) = true.
+Proof. vm_compute. repeat split. Qed.
+
+(* the printers meet the theorems' hypotheses on the doubles that occur here *)
+Example ex_printers :
+  dbl (fmt_lex_ref (dbl (s2l "1e5"))) = dbl (s2l "1e5") /\
+  dbl (fmt_lex_ref (dbl (s2l "2.5e-3"))) = dbl (s2l "2.5e-3") /\
+  fmt_lex_ref (S754_zero true) = s2l "-0" /\
+  (let s := fmt_ryu_ref (dbl (s2l "1e5")) in
+   s = s2l "100000.0" /\ valid_number s = true /\ is_int64 s = false /\ dbl s = dbl (s2l "1e5")) /\
+  (let x := sf_of_bits 0x1c5f367fcf16b755 in
+   fmt_ryu_ref x = s2l "5.04796620613671e-172" /\ dbl (fmt_ryu_ref x) = x).
+Proof. vm_compute. repeat split. Qed.
+
+(* json-syntax -> serde_json -> json-syntax: keys come back sorted (a < U+00E9 < U+10000),
+   -0 as 0, 1e5 as 100000.0 *)
+Definition ex_v_detour : value :=
+  VObj [(s2l "a", VNum (s2l "-12"));
+        ([0xE9], VArr [VNum (s2l "18446744073709551615"); VNum (s2l "1.5"); VNum (s2l "100000.0");
+                       VNum (s2l "0"); VNull; VBool true]);
+        ([0x10000], VObj [(s2l "k", VStr (s2l "x")); (s2l "z", VNum (s2l "0.0025"))])].
+
+Example ex_back_and_there :
+  nodup_keysb ex_v = true /\ nums64 ex_v = true /\
+  back_and_there fmt_ryu_ref ex_v = Ok ex_v_detour /\ detour_ok ex_v ex_v_detour = true.
+Proof. vm_compute. repeat split. Qed.
+
+(* a well-formed serde_json value: PosInt u64::MAX, NegInt, floats by bit pattern (1.5, a
+   16-digit double with exponent -172, -0.0), nested, keys sorted *)
+Definition ex_j : sj :=
+  JObj [(s2l "a", JNum (PosInt 18446744073709551615));
+        (s2l "b", JArr [JNum (NegInt (-5)); JNum (SFloat (sf_of_bits 0x3ff8000000000000));
+                        JNum (SFloat (sf_of_bits 0x1c5f367fcf16b755)); JNull]);
+        ([0xE9], JObj [(s2l "x", JStr [0x10000]);
+                       (s2l "y", JNum (SFloat (sf_of_bits 0x8000000000000000)))])].
+
+Example ex_there_and_back :
+  wf_sj ex_j = true /\
+  from_sj fmt_ryu_ref ex_j =
+    Ok (VObj [(s2l "a", VNum (s2l "18446744073709551615"));
+              (s2l "b", VArr [VNum (s2l "-5"); VNum (s2l "1.5"); VNum (s2l "5.04796620613671e-172"); VNull]);
+              ([0xE9], VObj [(s2l "x", VStr [0x10000]); (s2l "y", VNum (s2l "-0.0"))])]) /\
+  there_and_back fmt_ryu_ref ex_j = Ok ex_j.
+Proof. vm_compute. repeat split. Qed.
+
+(* into_serde_json on a magnitude beyond the doubles: null, no panic *)
+Example ex_overflow : into_sj w_huge = Ok JNull.
+Proof. vm_compute. reflexivity. Qed.
+
 Print Assumptions K3_refuted.
 Print Assumptions K4_refuted.
-Print Assumptions K5_refuted.
-Print Assumptions K3_panics.
-Print Assumptions K6_refuted.
+Print Assumptions ex_ser.
+Print Assumptions ex_dups.
+Print Assumptions ex_de.
+Print Assumptions ex_de_text.
+Print Assumptions ex_printers.
+Print Assumptions ex_back_and_there.
+Print Assumptions ex_there_and_back.
+Print Assumptions ex_overflow.
